@@ -312,7 +312,7 @@ def tasks_for(tier, seed):
     # in-fragment programs
     pres = [(pl, True, t) for pl, t in G.core_preconditions()]
     effs = [(pl, True, t) for pl, t in G.core_effects()]
-    n = 400 if tier == "quick" else 3000
+    n = 400 if tier == "quick" else 20000
     pres += G.sampled_programs(seed * 7 + 1, n, "pre")
     effs += G.sampled_programs(seed * 7 + 2, n, "eff")
     progs = []
